@@ -448,6 +448,8 @@ def run_check(pid, tier, seed, module, replay=None):
     import gen_tables
     sync_scratch_lean()
     gen_tables.GEN_DIR = os.path.join(LEAN_DIR, "PolyplyVerif", "Generated")
+    if LEAN_DIR != LEAN_SRC:
+        gen_tables.FALLBACK_DIR = os.path.join(LEAN_SRC, "PolyplyVerif", "Generated")
     ctx = Ctx(pid, tier, seed)
     quiet_logs()
     if replay is not None:
@@ -459,14 +461,20 @@ def run_check(pid, tier, seed, module, replay=None):
         if not ctx.failures:
             print("REPLAY-PASSES property=%s" % pid)
         return 1 if ctx.failures else 0
-    # 1. translator
-    try:
-        changed, tabs = gen_tables.generate()
-        problems = gen_tables.validate_live(tabs)
-        ctx.obligations.append(dict(name="translator", kind="translator", ok=not problems,
-                                    detail="; ".join(problems) if problems else "regenerated (%s)" % (", ".join(changed) or "unchanged")))
-    except gen_tables.TranslatorError as err:
-        ctx.obligations.append(dict(name="translator", kind="translator", ok=False, detail=str(err)))
+    # 1. translator (a provider whose anchor is missing only concerns the properties that import its file)
+    changed, tabs = gen_tables.generate()
+    problems = gen_tables.validate_live(tabs)
+    used = set()
+    for mod in ("PolyplyVerif.Properties." + pid, "PolyplyVerif.Driver." + pid):
+        for dep in transitive_local_imports(mod):
+            if dep.startswith("PolyplyVerif.Generated."):
+                used.add(dep.split(".")[-1] + ".lean")
+    errors = ["%s: %s" % (f, e) for f, e in gen_tables.ERRORS.items() if f in used]
+    other = ["%s: %s" % (f, e) for f, e in gen_tables.ERRORS.items() if f not in used]
+    detail = "; ".join(errors + problems) if errors or problems else \
+        "regenerated (%s)%s" % (", ".join(changed) or "unchanged",
+                                "; not used by this property and not regenerated: " + "; ".join(other) if other else "")
+    ctx.obligations.append(dict(name="translator", kind="translator", ok=not errors and not problems, detail=detail))
     # 2./3. kernel + audit
     ctx.obligations += lean_obligations(pid, thorough=ctx.thorough)
     # 4. correspondence and oracle
